@@ -79,6 +79,14 @@ def c01_rt_direct(case, obs):
     return None
 
 
+def _arg_collides(opx):
+    try:
+        import props_c12
+        return isinstance(opx, list) and len(opx) >= 2 and props_c12._collides(opx[1])
+    except Exception:
+        return False
+
+
 def c01_typed_direct(case, obs):
     if "typed-differs" not in obs and "panic" not in obs and "crash" not in obs and "hang" not in obs and "build-failed" not in obs:
         return None
@@ -92,6 +100,8 @@ def c01_typed_direct(case, obs):
     if head(pl) == "sch":
         for i, ob in enumerate(o[1:]):
             opx = ops[i]
+            if head(ob) == "typed-differs" and _arg_collides(opx):
+                continue     # two keys of the argument read the same (D19 / D72 class, owned by C12): the survivor is map-order dependent
             if head(ob) == "typed-differs":
                 return "%s(%s) = %s but the untyped call gives %s; schema %s" % (names.get(opx[0], opx[0]), show(opx[1])[:300], show(ob[1])[:200], show(ob[2])[:200], schema)
             if ob in ("panic", "crash", "hang"):
@@ -325,6 +335,40 @@ def kf_inlined_named_discriminator(m, case, obs, pred):
     return _class_match(case, obs, pred, _class_d71)
 
 
+def _agree_up_to_collisions(props, case, obs, pred):
+    """The stated input assumption of C01 (and of C01_roundtrip: distinct_in) is that no two entries of one raw map
+    denote the same key.  The generators do produce such arguments now and then (map[any]any{MyStr("x"): a, "x": b}):
+    which entry survives then depends on Go's map iteration order (the D19 / D72 class, owned by C12, where it IS a
+    recorded finding), while the model keeps one fixed entry.  So, for an operation whose OWN argument has two keys
+    with the same text, only the verdict (ok / err) is compared; every other operation of the case must agree exactly
+    (error paths aside).  Anything else is a disagreement."""
+    try:
+        import props_c12
+        pl = props.sx_parse(case)[3]
+        if not (isinstance(pl, list) and pl and pl[0] == "sch"):
+            return False
+        ops = pl[3][1:]
+        o, p = props.sx_parse(props.strip_err_paths(obs)), props.sx_parse(props.strip_err_paths(pred))
+        if not (isinstance(o, list) and isinstance(p, list) and o and p and o[0] == "r" and p[0] == "r"
+                and len(o) == len(p) == len(ops) + 1):
+            return False
+        masked = 0
+        for i, opx in enumerate(ops):
+            a, b = o[i + 1], p[i + 1]
+            if a == b:
+                continue
+            if not (isinstance(opx, list) and len(opx) >= 2 and props_c12._collides(opx[1])):
+                return False
+            ha = a[0] if isinstance(a, list) and a else a
+            hb = b[0] if isinstance(b, list) and b else b
+            if ha != hb or ha not in ("ok", "err"):
+                return False
+            masked += 1
+        return masked > 0
+    except Exception:
+        return False
+
+
 def register(props):
     global _P
     _P = props
@@ -344,7 +388,9 @@ def register(props):
         if prop == "C01" and fam == "c01typedobj":
             return True      # struct-mapped objects are not in Schema/Ops.v: judged on the implementation alone
         if prop == "C01" and fam in ("structured", "c01rt", "c01typed"):
-            return obs == pred or props.strip_err_paths(obs) == props.strip_err_paths(pred)
+            if obs == pred or props.strip_err_paths(obs) == props.strip_err_paths(pred):
+                return True
+            return _agree_up_to_collisions(props, case, obs, pred)
         return prev_agree(prop, fam, case, obs, pred)
     props.agree = agree
     props.PROPS["C01"] = {
